@@ -152,3 +152,31 @@ Proof. exact tie_param_parts. Qed.
 Check C03_source_parts : forall p, g_param_parts p =~ okM (cur_part p <? length (parts p)) (pparts p).
 Print Assumptions C03_source_parts.
 
+From Avt Require Import Proofs.ParamsPrefixed.
+(** Proofs/ParamsPrefixed.v (statement audit) *)
+Local Open Scope N_scope.
+(** end to end from the characters WITH a private marker and / or intermediate bytes: every final byte emits exactly the function of the table for (block as written, last prefix byte), both introducers, from every parser state (the last of marker and intermediates wins: KF-C20-1 when there are two) *)
+Theorem C03_params_dispatch_prefixed_text : forall (t : ptext) p mk js c, PInv p -> wf_text t -> marker_ok mk -> (mk = None -> hd 0 (render t) <> 58) -> Forall (fun i => 32 <= i <= 47) js -> 64 <= c <= 126 -> runP p (155 :: opt_list mk ++ render t ++ js ++ [c]) = Ok (mkParser Ground (written_block t) (written_cur t) (final_inter mk js), opt_cons (csi_spec (written_block t) (written_cur t) (final_inter mk js) c) []) /\ runP p (27 :: 91 :: opt_list mk ++ render t ++ js ++ [c]) = Ok (mkParser Ground (written_block t) (written_cur t) (final_inter mk js), opt_cons (csi_spec (written_block t) (written_cur t) (final_inter mk js) c) []).
+Proof. exact C03_params_dispatch_prefixed. Qed.
+Check C03_params_dispatch_prefixed_text : forall (t : ptext) p mk js c, PInv p -> wf_text t -> marker_ok mk -> (mk = None -> hd 0 (render t) <> 58) -> Forall (fun i => 32 <= i <= 47) js -> 64 <= c <= 126 -> runP p (155 :: opt_list mk ++ render t ++ js ++ [c]) = Ok (mkParser Ground (written_block t) (written_cur t) (final_inter mk js), opt_cons (csi_spec (written_block t) (written_cur t) (final_inter mk js) c) []) /\ runP p (27 :: 91 :: opt_list mk ++ render t ++ js ++ [c]) = Ok (mkParser Ground (written_block t) (written_cur t) (final_inter mk js), opt_cons (csi_spec (written_block t) (written_cur t) (final_inter mk js) c) []).
+Print Assumptions C03_params_dispatch_prefixed_text.
+
+(** CSI ? Pm h from the text *)
+Theorem C03_decset_from_text : forall (t : ptext) p, PInv p -> wf_text t -> runP p (155 :: 63 :: render t ++ [104]) = Ok (mkParser Ground (written_block t) (written_cur t) (Some 63), [Decset (filter_map dec_mode_spec (first_values t))]) /\ runP p (27 :: 91 :: 63 :: render t ++ [104]) = Ok (mkParser Ground (written_block t) (written_cur t) (Some 63), [Decset (filter_map dec_mode_spec (first_values t))]).
+Proof. exact C03_decset_text. Qed.
+Check C03_decset_from_text : forall (t : ptext) p, PInv p -> wf_text t -> runP p (155 :: 63 :: render t ++ [104]) = Ok (mkParser Ground (written_block t) (written_cur t) (Some 63), [Decset (filter_map dec_mode_spec (first_values t))]) /\ runP p (27 :: 91 :: 63 :: render t ++ [104]) = Ok (mkParser Ground (written_block t) (written_cur t) (Some 63), [Decset (filter_map dec_mode_spec (first_values t))]).
+Print Assumptions C03_decset_from_text.
+
+(** CSI ! p from the text *)
+Theorem C03_decstr_from_text : forall (t : ptext) p, PInv p -> wf_text t -> hd 0 (render t) <> 58 -> runP p (155 :: render t ++ [33; 112]) = Ok (mkParser Ground (written_block t) (written_cur t) (Some 33), [Decstr]) /\ runP p (27 :: 91 :: render t ++ [33; 112]) = Ok (mkParser Ground (written_block t) (written_cur t) (Some 33), [Decstr]).
+Proof. exact C03_decstr_text. Qed.
+Check C03_decstr_from_text : forall (t : ptext) p, PInv p -> wf_text t -> hd 0 (render t) <> 58 -> runP p (155 :: render t ++ [33; 112]) = Ok (mkParser Ground (written_block t) (written_cur t) (Some 33), [Decstr]) /\ runP p (27 :: 91 :: render t ++ [33; 112]) = Ok (mkParser Ground (written_block t) (written_cur t) (Some 33), [Decstr]).
+Print Assumptions C03_decstr_from_text.
+
+(** a 7-bit ESC Fe acts exactly like its 8-bit C1 counterpart also for everything that FOLLOWS: same emitted function and `psim`-related parsers (the relation of C03_memoryless) *)
+Theorem C03_esc_fe_acts_alike : forall p c, PInv p -> 64 <= c <= 95 -> exists p1 p2 p3 f, feedM p 27 = Ok (p1, None) /\ feedM p1 c = Ok (p2, f) /\ feedM p (c + 64) = Ok (p3, f) /\ psim p2 p3 /\ PInv p2 /\ PInv p3.
+Proof. exact C03_esc_fe_sim. Qed.
+Check C03_esc_fe_acts_alike : forall p c, PInv p -> 64 <= c <= 95 -> exists p1 p2 p3 f, feedM p 27 = Ok (p1, None) /\ feedM p1 c = Ok (p2, f) /\ feedM p (c + 64) = Ok (p3, f) /\ psim p2 p3 /\ PInv p2 /\ PInv p3.
+Print Assumptions C03_esc_fe_acts_alike.
+
+Local Close Scope N_scope.
